@@ -701,7 +701,7 @@ func vfC18RestartHeld(e *vfEnv, r *vfResult, idx int) { //nolint:cyclop
 	evs := append([]ev{}, log...)
 	mu.Unlock()
 	nils, afterNil, wrongUfrag, oldAfterRestart := 0, 0, 0, 0
-	seenNil := false
+	seenNil, seenNew := false, false
 	for _, x := range evs {
 		if x.gen == 0 {
 			if x.nilCand {
@@ -717,11 +717,24 @@ func vfC18RestartHeld(e *vfEnv, r *vfResult, idx int) { //nolint:cyclop
 		case seenNil:
 			afterNil++
 		}
-		if !x.nilCand && x.ufrag != newUfrag {
+		// an event of the cancelled cycle that was queued before Restart may still be delivered after Restart returned
+		// (callbacks are asynchronous); what must not happen is an old-cycle candidate AFTER a candidate of the fresh cycle
+		if !x.nilCand && x.ufrag == newUfrag {
+			seenNew = true
+		}
+		if !x.nilCand && x.ufrag != newUfrag && seenNew {
 			wrongUfrag++
 		}
-		if !x.nilCand && !fresh {
-			oldAfterRestart++
+	}
+	// and whatever the callbacks said, only the fresh cycle's candidates may be listed
+	if lc, err := a.GetLocalCandidates(); err == nil {
+		for _, c := range lc {
+			if ext, ok := c.GetExtension("ufrag"); ok && ext.Value != newUfrag {
+				oldAfterRestart++
+			}
+		}
+		if !fresh && len(lc) > 0 {
+			oldAfterRestart += len(lc)
 		}
 	}
 	wit := map[string]any{"idx": idx, "addresses": nIP, "fresh_cycle": fresh, "events": fmt.Sprintf("%+v", evs), "new_ufrag": newUfrag}
@@ -736,7 +749,7 @@ func vfC18RestartHeld(e *vfEnv, r *vfResult, idx int) { //nolint:cyclop
 		r.violation("candidate-after-nil", fmt.Sprintf("history %d: %d candidate(s) were delivered after the nil candidate", idx, afterNil), wit)
 	}
 	if wrongUfrag > 0 || oldAfterRestart > 0 {
-		r.violation("cancelled-cycle-candidate-after-restart", fmt.Sprintf("history %d: after Restart %d candidate(s) not carrying the new ufrag / %d candidate(s) without a fresh cycle were delivered", idx, wrongUfrag, oldAfterRestart), wit)
+		r.violation("cancelled-cycle-candidate-mixed-into-fresh-cycle", fmt.Sprintf("history %d: %d candidate(s) of the cancelled cycle were delivered after candidates of the fresh cycle / %d candidate(s) of the cancelled cycle are listed after Restart", idx, wrongUfrag, oldAfterRestart), wit)
 	}
 	if st, _ := a.GetGatheringState(); fresh && st != GatheringStateComplete {
 		r.violation("fresh-cycle-not-complete", fmt.Sprintf("history %d: the fresh cycle after Restart ended in state %s", idx, st), wit)
